@@ -672,6 +672,8 @@ func explicitPrefix(e *Env, fv *foundViolation) []workerlib.ExplicitRun {
 		if to := ses.From + fv.V.RunIndex/2 + 1; to < ses.To {
 			ses.To = to
 		}
+	case "soak":
+		ses.Runs = (fv.V.RunIndex + 1) * 5000
 	case "longpairs", "solo":
 		if to := ses.From + fv.V.RunIndex + 1; to < ses.To {
 			ses.To = to
@@ -692,6 +694,9 @@ func explicitPrefix(e *Env, fv *foundViolation) []workerlib.ExplicitRun {
 // processViolation confirms, minimises and writes the replay file. It returns
 // the path, or "" if the violation could not be reproduced (harness problem).
 func processViolation(e *Env, c *Check, fv *foundViolation, limit time.Duration) (string, string) {
+	if fv.C != nil {
+		c = fv.C // judge against the corpus and references of the round it was found in
+	}
 	curVariant = fv.Proc.Session.Variant
 	curSimProcs = fv.Proc.Session.SimProcs
 	defer func() { curVariant = ""; curSimProcs = 0 }()
